@@ -102,6 +102,17 @@ package immutable
 //@     requires [first_shortcut] !pa && !rt && r.first ==> arg2 == 0 && minMaxSeg[0] >= ctx.tr.Min && arg1 == minMaxSeg[0]
 //@     requires [last_shortcut] !pa && !rt && !r.first ==> minMaxSeg[1] <= ctx.tr.Max && arg1 == minMaxSeg[1]
 
+// Statistics of several out-of-order files are folded into one record: the scratch record handed to each
+// file's reader starts EMPTY (the partial-coverage path adds onto the count/sum it finds there, so leftovers of
+// the previous file would be counted twice).
+//@ func (*LocationCursor).ReadOutOfOrderMeta
+//@   ghost clean bool = false
+//@   call (*Record).ResetForReuse on dst
+//@     set clean = true
+//@   call (*Location).readMeta
+//@     requires [scratch_record_empty] clean && arg1 == dst
+//@     set clean = false
+
 // count(field) over a partially covered chunk counts the non-null values of the selected row window.
 //@ func readSumCountFromData
 //@   call .Overlaps
